@@ -6,6 +6,7 @@
 package c12
 
 import (
+	"time"
 	"context"
 	"encoding/json"
 	"fmt"
@@ -13,6 +14,7 @@ import (
 	"strings"
 
 	eventbus "github.com/jilio/ebu"
+	"github.com/jilio/ebu/stores/sqlite"
 	"verif/busmodel"
 	"verif/storekit"
 	"verif/vkit"
@@ -92,6 +94,15 @@ func (x *exec) open() error {
 	case "memory":
 		ms := eventbus.NewMemoryStore()
 		x.inner, x.subIn = ms, ms
+		x.reopen = func() error { return nil }
+	case "sqlitemem":
+		// a :memory: database: one store object kept across the runs
+		st, err := sqlite.New(":memory:")
+		if err != nil {
+			return err
+		}
+		x.inner, x.subIn = st, st
+		x.cleanup = func() { st.Close() }
 		x.reopen = func() error { return nil }
 	case "sqlite":
 		dir, cl := storekit.TempDir("c12-")
@@ -282,7 +293,27 @@ func (x *exec) run(ri int, r RunSpec, final bool) {
 }
 
 // Run executes the whole history and evaluates the oracle.
+// Run executes the case under a watchdog (nothing in it waits on purpose):
+// 30 s without an end, twice, is a hang.
 func Run(c *Case) *vkit.Outcome {
+	var res *vkit.Outcome
+	timedOut, dump := vkit.Watchdog(30*time.Second, func() { res = run(c) })
+	if timedOut {
+		again, dump2 := vkit.Watchdog(30*time.Second, func() { res = run(c) })
+		if again {
+			o := &vkit.Outcome{}
+			if len(dump2) > 6000 {
+				dump2 = dump2[:6000]
+			}
+			o.Failf("", "store %s: the history did not finish within 30 s, twice (SubscribeWithReplay, a publish or a store call blocked); goroutines:\n%s", c.Store, dump2)
+			return o
+		}
+		_ = dump
+	}
+	return res
+}
+
+func run(c *Case) *vkit.Outcome {
 	o := &vkit.Outcome{}
 	storekit.SetVariant(vkit.HashOf(c))
 	x := &exec{c: c, o: o, swr: map[string]bool{}, during: map[int][]string{}}
